@@ -92,6 +92,13 @@ def mutate(obj):
             root.getRankAttrs().setShape(77)
 
 
+def prep(case, t):
+    """the operand a case speaks about: for the unflatten operations a tensor whose rank d holds tuple coordinates (built by flattening ranks d, d+1)"""
+    if case["op"] in ("unflatten", "fiberUnflatten"):
+        return t.flattenRanks(depth=case.get("d", 0), levels=1, coord_style="tuple")
+    return t
+
+
 def value_op(op, t, t2, case):
     d = case.get("d", 0)
     root = t.getRoot()
@@ -121,6 +128,10 @@ def value_op(op, t, t2, case):
         return t.flattenRanks(depth=d, levels=1, coord_style=case.get("style", "tuple"))
     if op == "fiberFlatten":
         return root.flattenRanks(depth=d, levels=1, style=case.get("style", "tuple"))
+    if op == "unflatten":       # the operand was flattened by prep()
+        return t.unflattenRanks(depth=d, levels=1)
+    if op == "fiberUnflatten":
+        return root.unflattenRanks(levels=1)
     if op == "merge":
         return t.mergeRanks(depth=d, levels=1, coord_style="absolute")
     if op == "updateCoords":
@@ -240,7 +251,7 @@ def execute(case):
     try:
         depth = case["depth"]
         dfl = case.get("fdflt", 0)
-        t = proj.build_tensor(case["tree"], IDS[:depth], shape=[6] * depth, name="T", default=dfl)
+        t = prep(case, proj.build_tensor(case["tree"], IDS[:depth], shape=[6] * depth, name="T", default=dfl))
         t2 = proj.build_tensor(case.get("tree2", case["tree"]), IDS[:depth], shape=[6] * depth, name="T2", default=dfl)
         keep = []
         out["pre"] = pj(t, oids)
@@ -267,7 +278,7 @@ def execute(case):
         out["after_mut_res"] = {"operand": pj(t, oids)}
         # a fresh result for the second direction (the first one was just mutated)
         oids2 = oids
-        t_b = proj.build_tensor(case["tree"], IDS[:depth], shape=[6] * depth, name="T", default=dfl)
+        t_b = prep(case, proj.build_tensor(case["tree"], IDS[:depth], shape=[6] * depth, name="T", default=dfl))
         t2_b = proj.build_tensor(case.get("tree2", case["tree"]), IDS[:depth], shape=[6] * depth, name="T2", default=dfl)
         r_b = value_op(case["op"], t_b, t2_b, case)
         before = pj(r_b, None)
